@@ -182,8 +182,13 @@ impl Gen {
             17 => cap.saturating_add(1),
             18 => cap / 2,
             _ => {
-                if self.profile == Profile::Safety || self.profile == Profile::Capacity {
+                // Extreme weights. u32::MAX only on unbounded caches: on a bounded one a grown
+                // entry of that weight makes the cache size its popularity table at 8 GiB
+                // (allocation limits are out of scope, see DESIGN.md section 10).
+                if cfg.cap.is_none() && (self.profile == Profile::Safety || self.profile == Profile::Capacity) {
                     u32::MAX
+                } else if self.profile == Profile::Safety || self.profile == Profile::Capacity {
+                    cap.saturating_mul(2).saturating_add(1).min(1000)
                 } else {
                     1
                 }
